@@ -318,6 +318,14 @@ h_script(char *script)
 		} else if (!strcmp(cmd, "stall")) {
 			hx_now += strtod(p, NULL);
 			hx_log("STALL %.6f\n", hx_now);
+		} else if (!strcmp(cmd, "jump")) {
+			/* jump DT: the wall clock is stepped forward by DT seconds (settimeofday, resume from suspend),
+			 * the monotonic clock is not; to the log this is time that passed without the loop running */
+			double dt = strtod(p, NULL);
+			hx_now += dt;
+			hx_mono_off += dt;
+			hx_log("JUMP %.6f\n", hx_now);
+			hx_log("STALL %.6f\n", hx_now);
 		} else if (!strcmp(cmd, "exit") || !strcmp(cmd, "exitq")) {
 			size_t idx = strtoul(p, &p, 10);
 			int st = (int)strtol(p, &p, 10);
